@@ -1,4 +1,4 @@
 (* placeholder until the proofs are integrated *)
 From DictIO Require Import Chars Str Value Scalar.
-Theorem C04_placeholder : True. Proof. exact I. Qed.
-Print Assumptions C04_placeholder.
+Theorem C15_placeholder : True. Proof. exact I. Qed.
+Print Assumptions C15_placeholder.
